@@ -145,6 +145,7 @@ pub fn reference_hash(doc: &[u8]) -> Option<[u8; 20]> {
     // the dictionary the client reads = the first top-level dictionary that is a torrent at all
     // (in this alphabet: the one with an announce string; decoys have none)
     let top = vals.iter().find(|v| v.entries.iter().any(|(k, e)| k == b"announce" && matches!(e.v, refb::V::Str(_))))?;
+    // a repeated key: the decoder keeps the last occurrence, so that is the info the client uses
     let mut found = None;
     for (k, span) in &top.entries {
         if k == b"info" {
@@ -153,6 +154,17 @@ pub fn reference_hash(doc: &[u8]) -> Option<[u8; 20]> {
     }
     let span = found?;
     Some(core::sha1(&doc[span.start..span.end]))
+}
+
+/// `name` inside the info value the reference hashes.
+fn hashed_info_name(doc: &[u8]) -> Option<String> {
+    let vals = refb::parse_all_spanned(doc).ok()?;
+    let top = vals.iter().find(|v| v.entries.iter().any(|(k, e)| k == b"announce" && matches!(e.v, refb::V::Str(_))))?;
+    let info = top.entries.iter().filter(|(k, _)| k == b"info").last()?;
+    info.1.entries.iter().filter(|(k, _)| k == b"name").last().and_then(|(_, v)| match &v.v {
+        refb::V::Str(s) => String::from_utf8(s.clone()).ok(),
+        _ => None,
+    })
 }
 
 #[derive(PartialEq, Debug)]
@@ -173,6 +185,13 @@ pub fn check_doc(doc: &[u8]) -> Res {
             ),
             Some(h) => {
                 if &h == m.info_hash() {
+                    // the fields must come from the very value that was hashed (matters for repeated keys)
+                    let dbg = format!("{:?}", m);
+                    if let Some(name) = hashed_info_name(doc) {
+                        if !dbg.contains(&format!("name: {:?}", name)) {
+                            return Res::Violation("hash-and-fields-from-different-info-values", format!("document {}: info_hash is that of the info value named {:?}, but the client reads {}", core::show(doc), name, &dbg[..dbg.len().min(120)]));
+                        }
+                    }
                     Res::Agree
                 } else {
                     // which span was hashed instead? name the nested-key class precisely
@@ -216,8 +235,45 @@ fn nested_class(doc: &[u8], got: &[u8; 20]) -> &'static str {
     }
 }
 
+/// Top-level dictionaries that carry the key `info` twice (different names, so it is visible which
+/// one the client reads): the hash must belong to the same occurrence as the fields.
+pub fn duplicate_info_documents() -> Vec<Doc> {
+    let infos = info_variants();
+    let mut docs = vec![];
+    for (an, a) in infos.iter() {
+        for (bn, b) in infos.iter() {
+            // make the two values differ in their name
+            let b2: Vec<u8> = String::from_utf8_lossy(b).replace("4:name1:n", "4:name1:m").into_bytes();
+            let b2 = if b2 == *b { continue } else { b2 };
+            let _ = b2;
+            for mid in [&b""[..], b"7:comment2:hi", b"1:zd4:infoi1ee"] {
+                for (order, first, second) in [("AB", a, b), ("BA", b, a)] {
+                    let mut second2 = second.clone();
+                    // second occurrence gets another name (only for variants whose name is plain)
+                    if let Some(pos) = second2.windows(9).position(|w| w == b"4:name1:n") {
+                        second2[pos + 8] = b'm';
+                    } else {
+                        continue;
+                    }
+                    let mut bytes = b"d8:announce3:URL4:info".to_vec();
+                    bytes.extend_from_slice(first);
+                    bytes.extend_from_slice(mid);
+                    bytes.extend_from_slice(b"4:info");
+                    bytes.extend_from_slice(&second2);
+                    bytes.push(b'e');
+                    docs.push(Doc { bytes, desc: format!("duplicate info keys {}+{} order {} mid {}", an, bn, order, core::show(mid)) });
+                }
+            }
+        }
+    }
+    docs.sort_by(|a, b| a.bytes.cmp(&b.bytes));
+    docs.dedup_by(|a, b| a.bytes == b.bytes);
+    docs
+}
+
 pub fn run(ctx: &Ctx) -> Outcome {
     let mut docs = documents(true);
+    docs.extend(duplicate_info_documents());
     let without = documents(false);
     // documents without announce must be rejected; a thinned family is enough to count them
     docs.extend(without.into_iter().step_by(ctx.tier.pick(50, 5)));
@@ -239,14 +295,14 @@ pub fn run(ctx: &Ctx) -> Outcome {
     o.set("distinct_nontrivial", json!(accepted));
     o.set("accepted", json!(accepted));
     o.set("rejected", json!(rejected));
-    o.set("rule", json!("documents = one top-level dictionary {announce, any subset of the keys a/comment/infoo/z each with one of 5 value shapes (3 of them contain a nested key spelled info), info} in 4 key orders (sorted, reversed, info first, info last) x 6 info dictionaries (canonical, reversed keys, extra keys incl. a nested info key, leading-zero string lengths, multi-file, info key inside info) x info key spelled 4:info or 04:info x 4 trailers after the dictionary x (for one sibling-shape combination per key subset) 6 leaders in front of it: nothing, non-dictionary values, decoy dictionaries without announce but with a top-level info key; plus a thinned family without announce (must be rejected). All documents are distinct byte strings; non-trivial = accepted by Metainfo::from_bencode, for which the hash is compared."));
+    o.set("rule", json!("documents = one top-level dictionary {announce, any subset of the keys a/comment/infoo/z each with one of 5 value shapes (3 of them contain a nested key spelled info), info} in 4 key orders (sorted, reversed, info first, info last) x 6 info dictionaries (canonical, reversed keys, extra keys incl. a nested info key, leading-zero string lengths, multi-file, info key inside info) x info key spelled 4:info or 04:info x 4 trailers after the dictionary x (for one sibling-shape combination per key subset) 6 leaders in front of it: nothing, non-dictionary values, decoy dictionaries without announce but with a top-level info key; plus a thinned family without announce (must be rejected); plus documents with the info key twice (6x6 info values, 3 separators, both orders). All documents are distinct byte strings; non-trivial = accepted by Metainfo::from_bencode, for which the hash is compared."));
     if (accepted as f64) < 0.4 * docs.len() as f64 {
         ctx.machinery_error(format!("vacuity: only {} of {} documents accepted", accepted, docs.len()));
     }
     let picks = ctx.seeded_pick(docs.len(), 4);
     o.set("samples", Value::Array(picks.iter().map(|i| json!({"doc": core::show(&docs[*i].bytes), "desc": docs[*i].desc, "result": format!("{:?}", match &results[*i] { Res::Violation(c, _) => format!("violation:{}", c), r => format!("{:?}", r) })})).collect()));
     o.set("exhaustive", json!(true));
-    o.assume("reference span parser refb.rs; duplicate top-level keys are outside the alphabet (the statement does not define them)");
+    o.assume("reference span parser refb.rs; a repeated top-level info key means its last occurrence (the decoder keeps the last duplicate): hash and fields must come from the same occurrence");
     o
 }
 
